@@ -257,4 +257,47 @@ Invariants ==
   /\ Alternate /\ LogMatchesListing /\ NoDeadEntry /\ StoredHasHandler /\ DistinctConnections
   /\ ReplayHolds /\ ReturnedIsListed
 
+-----------------------------------------------------------------------------
+(* Liveness (C05 / C09 "eventually").  The environment (who dials, who      *)
+(* disconnects, who subscribes, whether a connect timeout fires) is free;   *)
+(* what the networks and the transport must do is weakly fair: a delivered  *)
+(* handshake step, the manager consuming a finished connecting task, a      *)
+(* handler noticing that its connection ended.  Under that fairness every   *)
+(* behaviour settles: from some point on nothing changes any more, views    *)
+(* are mutual and on the same connection, and no further peer events occur. *)
+(* (The "Quiescent => ..." invariants only look at states without a         *)
+(* successor; this also rules out cycles that never reach one.)             *)
+Att == 1..MaxAtt
+On(k, A) == k \in DOMAIN att /\ A
+Fairness ==
+  /\ \A k \in Att :
+        /\ WF_allvars(On(k, ListenerTls(k)))      /\ WF_allvars(On(k, Admit(k)))
+        /\ WF_allvars(On(k, Reject(k)))           /\ WF_allvars(On(k, DialerGetsAck(k)))
+        /\ WF_allvars(On(k, ListenerConfirmed(k))) /\ WF_allvars(On(k, DialerSeesClose(k)))
+        /\ WF_allvars(On(k, ListenerSeesClose(k)))
+        /\ \A n \in Nodes : WF_allvars(On(k, HandlerExit(n, k)))
+  /\ \A n \in Nodes : WF_allvars(MgrConsume(n))
+FairSpec == Spec /\ Fairness
+
+MutualNow ==
+  \A a, b \in Nodes :
+     /\ (b \in DOMAIN active[a]) <=> (a \in DOMAIN active[b])
+     /\ b \in DOMAIN active[a] => active[a][b].gid = active[b][a].gid
+NoOrphanNow == \A n \in Nodes : \A k \in handlers[n] :
+                 \E p \in DOMAIN active[n] : active[n][p].gid = k
+(* eventually for ever: mutual views, no handler without a listed connection *)
+EventuallyMutual == <>[](MutualNow /\ NoOrphanNow)
+(* and the event streams fall silent *)
+EventsCease == <>[][evlog' = evlog]_allvars
+(* C05: one dial each way, nothing else: both end on the connection dialed by the greater id *)
+ConvergedNow ==
+  (Len(att) = 2 /\ att[1].d = att[2].l /\ att[1].l = att[2].d /\ att[1].d # att[2].d)
+    => LET hi == IF att[1].d > att[1].l THEN att[1].d ELSE att[1].l
+           lo == IF att[1].d > att[1].l THEN att[1].l ELSE att[1].d
+           w  == IF att[1].d = hi THEN 1 ELSE 2
+       IN /\ lo \in DOMAIN active[hi] /\ active[hi][lo] = [gid |-> w, origin |-> "out"]
+          /\ hi \in DOMAIN active[lo] /\ active[lo][hi] = [gid |-> w, origin |-> "in"]
+MutualDialDone == Len(att) = 2 /\ att[1].d = att[2].l /\ att[1].l = att[2].d /\ att[1].d # att[2].d
+EventuallyConverged == [](MutualDialDone => <>[]ConvergedNow)
+
 =============================================================================
